@@ -551,4 +551,24 @@ theorem Scn.removeInter_net (s : Scn) (x : Id) : (s.removeInter x).1.net = s.net
     unfold Net.removeInter
     rw [this]
 
+/-- a predicate kept by `LaneletNetwork.remove_intersection` is kept by the list form of `Scenario.remove_intersection`
+(also in the state it leaves when it raises half-way) -/
+theorem Scn.removeInters_inv' (Q : Net → Prop) (s : Scn) (xs : List Id)
+    (hf : ∀ n, ∀ x ∈ xs, Q n → Q (n.removeInter x)) (h : Q s.net) : Q (s.removeInters xs).1.net := by
+  induction xs generalizing s with
+  | nil => exact h
+  | cons x xs ih =>
+    unfold Scn.removeInters
+    have hn := Scn.removeInter_net s x
+    have hq : Q (s.net.removeInter x) := hf _ x List.mem_cons_self h
+    cases hr : s.removeInter x with
+    | mk s1 e =>
+      rw [hr] at hn
+      cases e with
+      | none => exact ih s1 (fun n y hy => hf n y (List.mem_cons_of_mem _ hy)) (by rw [hn]; exact hq)
+      | some e => show Q s1.net; rw [hn]; exact hq
+
+theorem Scn.removeInters_inv (Q : Net → Prop) (hf : ∀ n x, Q n → Q (n.removeInter x)) (s : Scn) (xs : List Id)
+    (h : Q s.net) : Q (s.removeInters xs).1.net := Scn.removeInters_inv' Q s xs (fun n x _ => hf n x) h
+
 end CR.Refs
